@@ -238,3 +238,4 @@ def rule_e(ctx, ix):
     R = 'C08.e'
     ctx.describe(R, 'paired x / y expressions of the region classes agree up to the renaming x -> y', floor=50)
     common.check_xy_symmetry(ctx, R, ix.module('glue.core.roi'), XY_EXCEPTIONS, floor=50)
+    common.check_xy_symmetry(ctx, R, ix.module('glue.utils.geometry'), {}, floor=4)
